@@ -1,4 +1,5 @@
 import AfqmcVerif.Lemmas.Det
+import AfqmcVerif.Model.GreenUpdate
 import Mathlib.LinearAlgebra.Matrix.SchurComplement
 import Mathlib.Tactic.FieldSimp
 import Mathlib.Tactic.Ring
@@ -13,7 +14,7 @@ diagonal special case).  `M = Cᵀ W`, `P = W M⁻¹ Cᵀ` (the code's Green's f
 -/
 set_option linter.unusedSectionVars false
 namespace AfqmcVerif.Props.C10
-open Matrix
+open Matrix AfqmcVerif.GreenUpdate
 
 variable {m k : ℕ} {K : Type} [Field K]
 
@@ -158,5 +159,108 @@ theorem site_unbiased (r0 r1 ov : K) (h0 : r0 ≠ 0) (hov : ov ≠ 0) (hn : r0 /
   simp only [norm, prob0]
   rw [div_mul_cancel₀ _ hn]
   field_simp
+
+/-! ## the rank-two Green's-function update (`update_greens_function`) is exact -/
+
+
+/-- **closed form of the updated Green's function, any set of scaled rows**:
+`P' (1 + D P) = (1 + D) P`, i.e. `P' = (1 + D) P (1 + D P)⁻¹` whenever the overlap ratio `det(1 + D P)` is non-zero -/
+theorem green_update_closed (C W : Matrix (Fin m) (Fin k) K) (d : Fin m → K) (hM : (Cᵀ * W).det ≠ 0)
+    (hM' : (Cᵀ * scaled W d).det ≠ 0) :
+    P C (scaled W d) * (1 + Matrix.diagonal d * P C W) = (1 + Matrix.diagonal d) * P C W := by
+  have hu : IsUnit (Cᵀ * W).det := isUnit_iff_ne_zero.2 hM
+  have hu' : IsUnit (Cᵀ * scaled W d).det := isUnit_iff_ne_zero.2 hM'
+  unfold P
+  set M := Cᵀ * W with hMdef
+  set W' := scaled W d with hW'
+  set M' := Cᵀ * W' with hM'def
+  have key : Cᵀ * (1 + Matrix.diagonal d * (W * M⁻¹ * Cᵀ)) = M' * (M⁻¹ * Cᵀ) := by
+    have e1 : M' = M + Cᵀ * Matrix.diagonal d * W := by
+      rw [hM'def, hW']; unfold scaled
+      rw [Matrix.add_mul, Matrix.one_mul, Matrix.mul_add, Matrix.mul_assoc]
+    rw [e1, Matrix.add_mul, ← Matrix.mul_assoc M, Matrix.mul_nonsing_inv _ hu, Matrix.one_mul,
+      Matrix.mul_add, Matrix.mul_one]
+    simp only [Matrix.mul_assoc]
+  calc W' * M'⁻¹ * Cᵀ * (1 + Matrix.diagonal d * (W * M⁻¹ * Cᵀ))
+      = W' * M'⁻¹ * (Cᵀ * (1 + Matrix.diagonal d * (W * M⁻¹ * Cᵀ))) := by simp only [Matrix.mul_assoc]
+    _ = W' * M'⁻¹ * (M' * (M⁻¹ * Cᵀ)) := by rw [key]
+    _ = W' * (M'⁻¹ * M') * (M⁻¹ * Cᵀ) := by simp only [Matrix.mul_assoc]
+    _ = W' * (M⁻¹ * Cᵀ) := by rw [Matrix.nonsing_inv_mul _ hu', Matrix.mul_one]
+    _ = (1 + Matrix.diagonal d) * (W * M⁻¹ * Cᵀ) := by
+        rw [hW']; unfold scaled; simp only [Matrix.mul_assoc]
+
+
+
+theorem sum_dvec (i j : Fin m) (hij : i ≠ j) (ci cj : K) (f : Fin m → K) :
+    ∑ p, f p * dvec i j ci cj p = f i * ci + f j * cj := by
+  unfold dvec
+  have : ∀ p, f p * (if p = i then ci else if p = j then cj else 0)
+      = (if p = i then f i * ci else 0) + (if p = j then f j * cj else 0) := by
+    intro p
+    by_cases h1 : p = i
+    · subst h1; simp [hij]
+    · by_cases h2 : p = j
+      · subst h2; simp [h1]
+      · simp [h1, h2]
+  simp only [this, Finset.sum_add_distrib, Finset.sum_ite_eq', Finset.mem_univ, if_true]
+
+/-- the code's update satisfies the defining equation of the updated Green's function — for ANY matrix `Pm` -/
+theorem greenCode_equation (Pm : Matrix (Fin m) (Fin m) K) (i j : Fin m) (hij : i ≠ j) (ci cj : K)
+    (hr : ratio2 Pm i j ci cj ≠ 0) :
+    greenCode Pm i j ci cj * (1 + Matrix.diagonal (dvec i j ci cj) * Pm)
+      = (1 + Matrix.diagonal (dvec i j ci cj)) * Pm := by
+  ext y x
+  rw [Matrix.mul_add, Matrix.mul_one, Matrix.add_mul, Matrix.one_mul, Matrix.add_apply, Matrix.add_apply,
+    Matrix.mul_apply]
+  have hsum : ∑ p, greenCode Pm i j ci cj y p * (Matrix.diagonal (dvec i j ci cj) * Pm) p x
+      = greenCode Pm i j ci cj y i * ci * Pm i x + greenCode Pm i j ci cj y j * cj * Pm j x := by
+    have : ∀ p, greenCode Pm i j ci cj y p * (Matrix.diagonal (dvec i j ci cj) * Pm) p x
+        = (greenCode Pm i j ci cj y p * Pm p x) * dvec i j ci cj p := by
+      intro p; rw [Matrix.diagonal_mul]; ring
+    simp only [this]
+    rw [sum_dvec i j hij ci cj (fun p => greenCode Pm i j ci cj y p * Pm p x)]
+    ring
+  rw [hsum, Matrix.diagonal_mul]
+  simp only [greenCode, Matrix.of_apply]
+  set r := ratio2 Pm i j ci cj with hrdef
+  have hr' : (1 + ci * Pm i i) * (1 + cj * Pm j j) - ci * cj * (Pm i j * Pm j i) = r := rfl
+  unfold dvec
+  by_cases h1 : y = i
+  · subst h1
+    simp only [if_true, if_neg hij]
+    field_simp
+    rw [← hr']; ring
+  · by_cases h2 : y = j
+    · subst h2
+      simp only [if_true, if_neg h1]
+      field_simp
+      rw [← hr']; ring
+    · simp only [if_neg h1, if_neg h2]
+      field_simp
+      rw [← hr']; ring
+
+
+
+/-- **`update_greens_function` is exact** (all dimensions, any pair `i ≠ j` of spin-orbitals, any constants with a
+non-vanishing overlap ratio): the code's rank-two update of `G = Pᵀ` is the Green's function of the walker whose
+rows `i` and `j` were scaled by `1 + c_i`, `1 + c_j` -/
+theorem green_update_correct (C W : Matrix (Fin m) (Fin k) K) (i j : Fin m) (hij : i ≠ j) (ci cj : K)
+    (hM : (Cᵀ * W).det ≠ 0) (hr : ratio2 (P C W) i j ci cj ≠ 0) :
+    P C (scaled W (dvec i j ci cj)) = greenCode (P C W) i j ci cj := by
+  have hM' : (Cᵀ * scaled W (dvec i j ci cj)).det ≠ 0 := by
+    have := ratio_rank_two C W i j hij ci cj hM
+    unfold dvec
+    rw [this]
+    exact mul_ne_zero hM hr
+  have hN : IsUnit (1 + Matrix.diagonal (dvec i j ci cj) * P C W).det := by
+    have := det_one_add_diag2 (P C W) i j hij ci cj
+    unfold dvec
+    rw [this]
+    exact isUnit_iff_ne_zero.2 hr
+  have h1 := green_update_closed C W (dvec i j ci cj) hM hM'
+  have h2 := greenCode_equation (P C W) i j hij ci cj hr
+  have h3 := congrArg (· * (1 + Matrix.diagonal (dvec i j ci cj) * P C W)⁻¹) (h1.trans h2.symm)
+  simpa only [Matrix.mul_assoc, Matrix.mul_nonsing_inv _ hN, Matrix.mul_one] using h3
+
 
 end AfqmcVerif.Props.C10
